@@ -303,3 +303,114 @@ Proof.
       + unfold entry_at at 1. rewrite tgP_set, pair_eqb_refl. cbn [u_ranges]. unfold entry_at in N3. rewrite N3. reflexivity.
     - reflexivity. }
 Qed.
+
+(* ---- the converse direction: every real output of ours is an entry of the sat-index model *)
+
+Definition RV (U : list (outpoint * uentry)) (m : S.umap) : Prop :=
+  forall op u, fst op <> 0 -> tgP op U = Some u -> S.aget S.op_eqb op m = Some (u_ranges u).
+
+Lemma take_inputs_rv : forall ins U m ents U1 irs m1,
+  RV U m -> take_inputs ins U = Ok (ents, U1) -> S.take_inputs ins m = Ok (irs, m1) -> RV U1 m1.
+Proof.
+  intros ins. induction ins as [|p r IH]; intros U m ents U1 irs m1 HR H1 H2; cbn [take_inputs S.take_inputs] in *.
+  - inv H1. inv H2. auto.
+  - destruct (tgP p U) as [u|] eqn:Q1; [|discriminate]. destruct (S.aget S.op_eqb p m) as [rs|] eqn:Q2; [|discriminate].
+    dbind H1. destruct a as [us U2]. inv H1. dbind H2. destruct a as [rest m2]. inv H2.
+    eapply IH; [|exact E|exact E0].
+    intros op u0 Hz Hq. assert (op <> p) by (intro; subst; rewrite (tget_tdel_same pair_eqb) in Hq; discriminate).
+    rewrite (tget_tdel_other pair_eqb pair_eqb_eq) in Hq by auto. rewrite aget_adel, pair_eqb_false by auto. apply HR; auto.
+Qed.
+
+Lemma put_outputs_rv : forall cfg txid outs per_out vout U m d,
+  c_sats cfg = true -> length per_out = length outs -> RV U m ->
+  RV (put_outputs cfg txid vout outs per_out U) (fst (S.put_outputs txid vout per_out m d)).
+Proof.
+  intros cfg txid outs. induction outs as [|o r IH]; intros per_out vout U m d HS HL HR.
+  - destruct per_out; [|discriminate]. cbn. exact HR.
+  - destruct per_out as [|e es]; [discriminate|]. cbn [put_outputs S.put_outputs hd tl]. rewrite HS. apply IH; auto.
+    intros op u Hz Hq. rewrite tgP_set in Hq. rewrite aget_aset. destruct (pair_eqb op (txid, vout)).
+    + inv Hq. reflexivity.
+    + apply HR; auto.
+Qed.
+
+(* the inscription half creates no entry for a real outpoint *)
+Definition keeps2 (U U' : list (outpoint * uentry)) : Prop :=
+  forall k u', fst k <> 0 -> tgP k U' = Some u' -> exists u, tgP k U = Some u /\ u_ranges u' = u_ranges u.
+
+Definition Pres (txid : N) (outs : list txout) (U : list (outpoint * uentry)) : Prop :=
+  forall k o, nth_error outs k = Some o -> tgP (txid, N.of_nat k) U <> None.
+
+Lemma step_keeps2 : forall h rg f sp o b b',
+  update_location h rg f sp o b = Ok b' ->
+  fst (fst sp) = 0 \/ tgP (fst sp) (s_utxo (b_st b)) <> None ->
+  keeps2 (s_utxo (b_st b)) (s_utxo (b_st b')).
+Proof.
+  intros h rg f sp o b b' H HT k u' Hz Hu. destruct (update_utxo_shape _ _ _ _ _ _ _ H) as (op & s & off & U & Hc). rewrite U in Hu.
+  unfold push_insc in Hu. rewrite tgP_set in Hu. destruct (pair_eqb k op) eqn:Q; [|eauto].
+  apply pair_eqb_eq in Q. subst k. inv Hu. cbn [u_ranges].
+  assert (Hop : tgP op (s_utxo (b_st b)) <> None).
+  { destruct Hc as [(seq & _ & _ & _ & Q)|(_ & _ & _ & [Q|Q])].
+    - rewrite <- Q in HT. cbn [fst] in HT. destruct HT; [contradiction|auto].
+    - rewrite <- Q in HT. cbn [fst] in HT. destruct HT; [contradiction|auto].
+    - subst op. exfalso. apply Hz. reflexivity. }
+  destruct (tgP op (s_utxo (b_st b))) as [u|]; [|congruence]. eauto.
+Qed.
+
+Lemma step_pres : forall h rg f sp o b b' txid outs,
+  update_location h rg f sp o b = Ok b' -> Pres txid outs (s_utxo (b_st b)) -> Pres txid outs (s_utxo (b_st b')).
+Proof.
+  intros h rg f sp o b b' txid outs H HP k o0 Hk. destruct (update_utxo_shape _ _ _ _ _ _ _ H) as (op & s & off & U & _). rewrite U.
+  unfold push_insc. rewrite tgP_set. destruct (pair_eqb (txid, N.of_nat k) op); [discriminate|]. eapply HP; eauto.
+Qed.
+
+Lemma keeps2_trans : forall A B C, keeps2 A B -> keeps2 B C -> keeps2 A C.
+Proof.
+  intros A B C H1 H2 k u Hz Hu. destruct (H2 k u Hz Hu) as (u1 & X1 & Y1). destruct (H1 k u1 Hz X1) as (u0 & X0 & Y0). exists u0. split; auto. congruence.
+Qed.
+
+Lemma apply_locs_keeps2 : forall h rg txid outs locs b b',
+  txid <> 0 -> Pres txid outs (s_utxo (b_st b)) -> Forall (located txid 0 0 outs) locs ->
+  apply_locs h rg locs b = Ok b' -> keeps2 (s_utxo (b_st b)) (s_utxo (b_st b')).
+Proof.
+  intros h rg txid outs locs. induction locs as [|[[[op off] f] o] r IH]; intros b b' Hz HP HL H; cbn [apply_locs] in H.
+  - inv H. intros k u _ Hu. eauto.
+  - dbind H. apply Forall_cons_iff in HL. destruct HL as [HL1 HL2].
+    eapply keeps2_trans; [|eapply IH; [exact Hz| |exact HL2|exact H]].
+    + eapply step_keeps2; [exact E|]. right. cbn [fst]. destruct HL1 as (k & o' & K1 & K2 & _). cbn [fst snd loc_flot] in K2. rewrite K2, N.add_0_l. eapply HP; eauto.
+    + eapply step_pres; eauto.
+Qed.
+
+Lemma apply_lost_keeps2 : forall h rg ov l b b', apply_lost h rg ov l b = Ok b' -> keeps2 (s_utxo (b_st b)) (s_utxo (b_st b')).
+Proof.
+  intros h rg ov l. induction l as [|f r IH]; intros b b' H; cbn [apply_lost] in H.
+  - inv H. intros k u _ Hu. eauto.
+  - dbind H. dbind H. eapply keeps2_trans; [|eapply IH; exact H]. eapply step_keeps2; [exact E0|]. left. reflexivity.
+Qed.
+
+Lemma index_inscriptions_keeps2 : forall cfg h t ents rg b b',
+  t_id t <> 0 -> Pres (t_id t) (t_outs t) (s_utxo (b_st b)) ->
+  index_inscriptions cfg h t ents rg b = Ok b' -> keeps2 (s_utxo (b_st b)) (s_utxo (b_st b')).
+Proof.
+  intros cfg h t ents rg b b' Hz HP H. unfold index_inscriptions in H. dbind H. destruct a as [F tiv].
+  destruct (tx_is_coinbase t).
+  - destruct (assign (t_id t) 0 0 (t_outs t) (sort_by f_offset (F ++ b_flot b))) as [[locs rest] ov] eqn:EA.
+    assert (AS0 : Forall (fun f => 0 <= f_offset f) (sort_by f_offset (F ++ b_flot b))) by (apply Forall_forall; intros; lia).
+    destruct (assign_spec _ _ _ _ _ _ _ _ (sort_by_sorted f_offset (F ++ b_flot b)) AS0 EA) as (_ & _ & HL).
+    dbind H. dbind H. dbind H. inv H. cbn [b_st].
+    eapply keeps2_trans; [eapply (apply_locs_keeps2 _ _ _ _ _ _ _ Hz) with (3 := E0); [exact HP|exact HL] | eapply apply_lost_keeps2; eauto].
+  - destruct (assign (t_id t) 0 0 (t_outs t) (sort_by f_offset F)) as [[locs rest] ov] eqn:EA.
+    assert (AS0 : Forall (fun f => 0 <= f_offset f) (sort_by f_offset F)) by (apply Forall_forall; intros; lia).
+    destruct (assign_spec _ _ _ _ _ _ _ _ (sort_by_sorted f_offset F) AS0 EA) as (_ & _ & HL).
+    dbind H. dbind H. dbind H. inv H. cbn [b_st].
+    eapply (apply_locs_keeps2 _ _ _ _ _ _ _ Hz) with (3 := E0); [exact HP|exact HL].
+Qed.
+
+Lemma put_outputs_pres : forall cfg txid outs per_out U, Pres txid outs (put_outputs cfg txid 0 outs per_out U).
+Proof.
+  intros cfg txid outs per_out U k o Hk. rewrite <- (N.add_0_l (N.of_nat k)). rewrite (put_outputs_lookup cfg _ _ _ _ _ _ _ Hk). discriminate.
+Qed.
+
+Lemma RV_keeps2 : forall U U' m, keeps2 U U' -> RV U m -> RV U' m.
+Proof.
+  intros U U' m K HR op u' Hz Hu. destruct (K op u' Hz Hu) as (u & A & B). rewrite B. apply HR; auto.
+Qed.
